@@ -107,9 +107,17 @@ def check_relations(ctx, s, name, Hkl, exact_power, tag, closed_form=False):
         if kap > 1e10:
             ctx.tally("ill-conditioned-equivalent-channel")
         else:
+            # the library forms W^H H F itself: when the filter is nearly orthogonal
+            # to the precoded channel (arbitrary precoders installed through the
+            # setters) the product is small against its factors and its rounding
+            # error is amplified by ||W^H|| ||H|| ||F|| / sigma_min
+            amp = max(1.0, float(np.linalg.norm(WHk, 2)) * float(np.linalg.norm(Hkl[k][k], 2)) *
+                      fro(fFk) / sv[-1])
             ctx.within("identity-equivalent-channel",
-                       fro(fWHk @ Hkl[k][k] @ fFk - np.eye(Ns[k])), 1e3 * EPS * kap * Ns[k],
-                       name, d(user=k, kappa=kap, got=fWHk @ Hkl[k][k] @ fFk))
+                       fro(fWHk @ Hkl[k][k] @ fFk - np.eye(Ns[k])),
+                       1e3 * EPS * kap * Ns[k] * amp,
+                       name, d(user=k, kappa=kap, amplification=amp,
+                               got=fWHk @ Hkl[k][k] @ fFk))
         ctx.ev("hermitian-pairs", np.array_equal(np.asarray(W[k]), herm(WHk)) and
                np.allclose(np.asarray(fW[k]), herm(fWHk), rtol=0, atol=0),
                cls=name, detail=d(user=k))
